@@ -317,6 +317,13 @@ def feed_total(ctx):
     g = cfg_of(ns)
     arr = [i for i in nodes_of_type(ns, ast.If) if "self.np.ndarray" in unparse(i.test, 400)]
     ctx.need(arr, "ndarray branch of NumpyHasher.save not found")
+    fa = cond_facts([(arr[0], arr[0].test, True)])
+    ctx.check(set(fa) == {("isinstance(obj, self.np.ndarray)", True), ("obj.dtype.hasobject", False)}, arr[0], "the raw-bytes branch is taken exactly for ndarrays without object dtype",
+              "the raw-bytes branch of NumpyHasher.save is taken under %s" % fa)
+    dt = [i for i in nodes_of_type(ns, ast.If) if "self.np.dtype" in unparse(i.test, 300)]
+    for i in dt:
+        ctx.check(unparse(i.test) == "isinstance(obj, self.np.dtype)" and any(call_name(c) == "self._hash.update" for c in calls_in(ast.Module(body=i.body, type_ignores=[]))), i,
+                  "dtype objects are digested in isolation (no pickle memo interference)", "the dtype branch is taken under `%s`" % unparse(i.test))
     upd = [c for c in calls_in(ns) if call_name(c) == "self._hash.update" and any(i is arr[0] for i in ancestors(c)) and in_block_of(c, arr[0].body)]
     desc = [a for a in nodes_of_type(ns, ast.Assign) if isinstance(a.value, ast.Tuple) and in_block_of(a, arr[0].body) and ns.args.args[1].arg in stores_to(a)]
     ctx.check(bool(upd) and bool(desc) and g.every_path_to(g.nodes_of_all(desc), g.nodes_of_all(upd)), upd[0] if upd else arr[0], "ndarray: the data bytes are fed to the digest before the descriptor replaces the array",
@@ -329,12 +336,14 @@ def feed_total(ctx):
         for a in defs:
             v = unparse(a.value)
             facts = cond_facts([c_ for c_ in g.conditions_at(g.nodes_of(a)) if c_[0] is not arr[0]])
-            if v == "obj":
-                ctx.check(("obj.flags.c_contiguous", True) in facts, a, "the array itself is used only when C-contiguous", "a non C-contiguous array is hashed through its raw buffer (%s)" % facts)
+            if v == "obj.flatten()" and ("obj.shape == ()", True) in facts:
+                ctx.ok(a, "0-d arrays are flattened (they cannot be viewed as bytes)")
+            elif v == "obj":
+                ctx.check(("obj.flags.c_contiguous", True) in facts and ("obj.shape == ()", False) in facts, a, "the array itself is used only when C-contiguous", "a non C-contiguous array is hashed through its raw buffer (%s)" % facts)
             elif v == "obj.T":
-                ctx.check(("obj.flags.f_contiguous", True) in facts, a, "the transpose is used only when F-contiguous", "the transpose of a non F-contiguous array is hashed (%s)" % facts)
+                ctx.check(("obj.flags.f_contiguous", True) in facts and ("obj.shape == ()", False) in facts, a, "the transpose is used only when F-contiguous", "the transpose of a non F-contiguous array is hashed (%s)" % facts)
             else:
-                ctx.check(v == "obj.flatten()", a, "otherwise a flattened copy is hashed", "unexpected contiguous view %s" % v)
+                ctx.check(v == "obj.flatten()" and ("obj.shape == ()", False) in facts, a, "otherwise a flattened copy is hashed", "contiguous view %s chosen under %s" % (v, facts))
     if desc:
         t = unparse(desc[0].value, 400)
         ctx.check(all(x in t for x in ("obj.dtype", "obj.shape", "obj.strides", "klass")), desc[0], "descriptor = (class, dtype, shape, strides)",
